@@ -29,7 +29,7 @@ import (
 // APlan is one attestation world.
 type APlan struct {
 	Bits      int     `json:"bits"`       // RSA device key size; 0: ECDSA device key
-	Chain     string  `json:"chain"`      // root | second_root | other_ca | self_signed
+	Chain     string  `json:"chain"`      // root | second_root | other_ca | lookalike_ca (foreign CA carrying the first root's name) | self_signed
 	DevWindow string  `json:"dev_window"` // valid | expired | not_yet | lapsing
 	LapseSec  int64   `json:"lapse_sec"`
 	Hash      string  `json:"hash"`    // sha1 | sha256 | sha384 | sha512 | md5
@@ -42,6 +42,9 @@ type APlan struct {
 	// CritExt: the device certificate carries an unknown critical extension (chain validation reports it before
 	// anything else; a device certificate that does not chain must be refused all the same)
 	CritExt bool `json:"crit_ext,omitempty"`
+	// Prior: before every judged call the same Attestor attests a genuine device (issued by the first root, same
+	// serial number and subject as the judged device certificate) with an honestly signed slot certificate
+	Prior bool `json:"prior,omitempty"`
 }
 
 var digestInfo = map[string][2][]byte{ // with NULL, without NULL
@@ -57,12 +60,13 @@ var hashOf = map[string]crypto.Hash{"md5": crypto.MD5, "sha1": crypto.SHA1, "sha
 var rsaLabel = map[string]x509.SignatureAlgorithm{"sha1": x509.SHA1WithRSA, "sha256": x509.SHA256WithRSA, "sha384": x509.SHA384WithRSA, "sha512": x509.SHA512WithRSA, "md5": x509.MD5WithRSA}
 
 var mutations = []string{"none", "none", "none", "pad_byte", "pad_byte", "block_type", "leading", "separator", "trailing_garbage", "shift_left", "short_pad_zero_tail",
-	"digestinfo_byte", "digestinfo_byte", "digest_byte", "other_hash_info", "wrong_digest", "sig_bit", "tbs_bit", "no_padding", "all_zero_pad"}
+	"digestinfo_byte", "digestinfo_byte", "digest_byte", "other_hash_info", "wrong_digest", "sig_bit", "tbs_bit", "no_padding", "all_zero_pad",
+	"sig_extra_tail", "sig_truncated", "sig_leading_zero"}
 
 func pick[T any](r *sim.Rng, xs []T) T { return xs[r.Intn(len(xs))] }
 
 func genA(r *sim.Rng, tier string) any {
-	p := &APlan{Bits: pick(r, []int{1024, 1024, 1536, 2048, 2048, 2048, 3072, 4096, 0}), Chain: pick(r, []string{"root", "root", "root", "second_root", "other_ca", "self_signed"}),
+	p := &APlan{Bits: pick(r, []int{1024, 1024, 1536, 2048, 2048, 2048, 3072, 4096, 0}), Chain: pick(r, []string{"root", "root", "root", "second_root", "other_ca", "lookalike_ca", "self_signed"}),
 		DevWindow: pick(r, []string{"valid", "valid", "valid", "lapsing", "expired", "not_yet"}), Hash: pick(r, []string{"sha1", "sha256", "sha256", "sha384", "sha512"}),
 		Label: "rsa", Variant: pick(r, []string{"null", "nonull"}), Mutation: pick(r, mutations)}
 	if tier == "quick" && p.Bits > 2048 && r.Bool(0.7) {
@@ -77,6 +81,7 @@ func genA(r *sim.Rng, tier string) any {
 	p.Pos = r.Intn(4096)
 	p.Val = r.Intn(256)
 	p.CritExt = r.Bool(0.12)
+	p.Prior = r.Bool(0.3)
 	p.LapseSec = int64(2*r.Range(50, 5000) + 1)
 	switch r.Intn(4) {
 	case 0:
@@ -120,6 +125,11 @@ func shrinkA(raw json.RawMessage) []json.RawMessage {
 		q.DevWindow = "valid"
 		emit(q)
 	}
+	if p.Prior {
+		q := p
+		q.Prior = false
+		emit(q)
+	}
 	return out
 }
 
@@ -128,9 +138,12 @@ var (
 	rootTo   = sim.Epoch.Add(20 * 365 * 24 * time.Hour)
 )
 
-func mkCA(label string) (*x509.Certificate, crypto.Signer) {
-	k := keys.EC(256, "attest-ca:"+label)
-	t := &x509.Certificate{SerialNumber: big.NewInt(int64(len(label)) + 5), Subject: pkix.Name{CommonName: "Verif PIV Root " + label},
+func mkCA(label string) (*x509.Certificate, crypto.Signer) { return mkNamedCA(label, label) }
+
+// mkNamedCA creates a self-signed CA with the key of keyLabel and the subject name of nameLabel.
+func mkNamedCA(keyLabel, nameLabel string) (*x509.Certificate, crypto.Signer) {
+	k := keys.EC(256, "attest-ca:"+keyLabel)
+	t := &x509.Certificate{SerialNumber: big.NewInt(int64(len(nameLabel)) + 5), Subject: pkix.Name{CommonName: "Verif PIV Root " + nameLabel},
 		NotBefore: rootFrom, NotAfter: rootTo, IsCA: true, BasicConstraintsValid: true, KeyUsage: x509.KeyUsageCertSign}
 	der, err := x509.CreateCertificate(rand.Reader, t, t, k.Public(), k)
 	if err != nil {
@@ -166,7 +179,7 @@ func buildEM(p *APlan, k int, tbs []byte) (em []byte, wellFormed bool, ok bool) 
 	wellFormed = true
 	npad := padEnd - 2
 	switch p.Mutation {
-	case "none", "sig_bit", "tbs_bit":
+	case "none", "sig_bit", "tbs_bit", "sig_extra_tail", "sig_truncated", "sig_leading_zero":
 	case "pad_byte":
 		j := 2 + p.Pos%npad
 		v := byte(p.Val)
@@ -276,6 +289,7 @@ func execA(t *testing.T, raw json.RawMessage) *sim.Outcome {
 	root1, rk1 := mkCA("one")
 	root2, rk2 := mkCA("two")
 	other, ok3 := mkCA("foreign")
+	look, lk := mkNamedCA("lookalike", "one")
 	pool := x509.NewCertPool()
 	pool.AddCert(root1)
 	pool.AddCert(root2)
@@ -312,6 +326,8 @@ func execA(t *testing.T, raw json.RawMessage) *sim.Outcome {
 		parent, parentKey = root2, rk2
 	case "other_ca":
 		parent, parentKey = other, ok3
+	case "lookalike_ca":
+		parent, parentKey = look, lk
 	default:
 		parent, parentKey = devT, devPriv
 	}
@@ -384,6 +400,7 @@ func execA(t *testing.T, raw json.RawMessage) *sim.Outcome {
 	}
 	var sig []byte
 	wellFormed := false
+	sigUndecided := false
 	if rsaPriv != nil {
 		k := (rsaPriv.N.BitLen() + 7) / 8
 		em, wf, ok := buildEM(&p, k, tbs)
@@ -413,6 +430,24 @@ func execA(t *testing.T, raw json.RawMessage) *sim.Outcome {
 			}
 			wellFormed = false
 		}
+		sigSameValue := false
+		switch p.Mutation {
+		case "sig_extra_tail":
+			// the genuine signature followed by further octets: another (longer) number
+			for i := 0; i <= p.Pos%4; i++ {
+				sig = append(sig, byte(p.Val+i))
+			}
+			wellFormed = false
+		case "sig_truncated":
+			sig = sig[:len(sig)-1-p.Pos%4]
+			wellFormed = false
+		case "sig_leading_zero":
+			// the same number written with more octets: the statement speaks of the signature value
+			sig = append(make([]byte, 1+p.Pos%3), sig...)
+			sigSameValue = wellFormed
+			wellFormed = false
+		}
+		sigUndecided = sigSameValue
 		if p.Mutation == "tbs_bit" {
 			tbs[p.Pos%len(tbs)] ^= byte(1 << (p.Val % 8))
 			wellFormed = false
@@ -422,6 +457,31 @@ func execA(t *testing.T, raw json.RawMessage) *sim.Outcome {
 	}
 	slot := &x509.Certificate{SignatureAlgorithm: label, RawTBSCertificate: tbs, Signature: sig}
 
+	// the genuine device attested first on the same Attestor (Prior)
+	var priorDev, priorSlot *x509.Certificate
+	if p.Prior {
+		pk := keys.RSA(2048, p.Pos+1)
+		pT := &x509.Certificate{SerialNumber: big.NewInt(0xf9), Subject: pkix.Name{CommonName: "Yubico PIV Attestation"},
+			NotBefore: sim.Epoch.Add(-24 * time.Hour), NotAfter: sim.Epoch.Add(10 * 365 * 24 * time.Hour),
+			IsCA: true, BasicConstraintsValid: true, KeyUsage: x509.KeyUsageCertSign | x509.KeyUsageDigitalSignature}
+		pder, err := x509.CreateCertificate(rand.Reader, pT, root1, pk.Public(), rk1)
+		if err == nil {
+			priorDev, err = x509.ParseCertificate(pder)
+		}
+		if err == nil {
+			sT := &x509.Certificate{SerialNumber: big.NewInt(77), Subject: pkix.Name{CommonName: "YubiKey PIV Attestation 9c"},
+				NotBefore: pT.NotBefore, NotAfter: pT.NotAfter, SignatureAlgorithm: x509.SHA256WithRSA}
+			var sder []byte
+			sder, err = x509.CreateCertificate(rand.Reader, sT, priorDev, keys.EC(256, "slot-9c").Public(), pk)
+			if err == nil {
+				priorSlot, err = x509.ParseCertificate(sder)
+			}
+		}
+		if err != nil {
+			o.Fail("harness.pki", "prior_device", 0, "%v", err)
+			return o
+		}
+	}
 	var sigParts []string
 	fail := sim.InBubble(t, func() {
 		for ci, at := range p.Clock {
@@ -430,6 +490,25 @@ func execA(t *testing.T, raw json.RawMessage) *sim.Outcome {
 				o.Fault("clock_jump")
 			}
 			now := time.Now()
+			if p.Prior {
+				var perr error
+				var ppanic any
+				func() {
+					defer func() { ppanic = recover() }()
+					perr = att.Attest(priorDev, priorSlot)
+				}()
+				pexp := !now.Before(priorDev.NotBefore) && !now.After(priorDev.NotAfter) && !now.Before(rootFrom) && !now.After(rootTo)
+				switch {
+				case ppanic != nil:
+					o.Fail("C06.no_panic", "attest_panic:prior", ci, "Attest panicked on a genuine device: %v", ppanic)
+				case perr == nil && !pexp:
+					o.Fail("C06.accepted_invalid", "chain:root:prior_outside_window", ci, "Attest accepted a genuine device certificate outside its validity at t=+%ds", at)
+				case perr != nil && pexp:
+					o.Fail("C06.rejected_valid", "rejected:prior", ci, "Attest refused a genuine device and honestly signed slot certificate at t=+%ds: %v", at, perr)
+				default:
+					o.Probe("genuine_device_attested_first_on_same_attestor")
+				}
+			}
 			var aerr error
 			var panicked any
 			func() {
@@ -444,6 +523,9 @@ func execA(t *testing.T, raw json.RawMessage) *sim.Outcome {
 				!now.Before(rootFrom) && !now.After(rootTo)
 			sigOK := rsaPriv != nil && wellFormed && labelClass == "rsa"
 			undecided := rsaPriv != nil && wellFormed && labelClass == "undecided"
+			if sigUndecided && (labelClass == "rsa" || labelClass == "undecided") {
+				undecided = true
+			}
 			if p.CritExt && chainOK && sigOK {
 				// issued by a root and inside every window, but with an extension chain validation cannot handle:
 				// whether that still "chains" is not settled by the statement
@@ -451,9 +533,9 @@ func execA(t *testing.T, raw json.RawMessage) *sim.Outcome {
 			}
 			expect := chainOK && sigOK
 			got := aerr == nil
-			desc := fmt.Sprintf("bits=%d chain=%s window=%s t=+%ds hash=%s label=%s variant=%s mutation=%s critical_ext=%v", p.Bits, p.Chain, p.DevWindow, at, p.Hash, p.Label, p.Variant, p.Mutation, p.CritExt)
+			desc := fmt.Sprintf("bits=%d chain=%s window=%s t=+%ds hash=%s label=%s variant=%s mutation=%s critical_ext=%v genuine_device_attested_first=%v", p.Bits, p.Chain, p.DevWindow, at, p.Hash, p.Label, p.Variant, p.Mutation, p.CritExt, p.Prior)
 			o.Logf("attest %s -> accepted=%v expected=%v", desc, got, expect)
-			sigParts = append(sigParts, fmt.Sprintf("%d/%s/%s/%v/%s/%s/%s/%s/%v", p.Bits, p.Chain, p.DevWindow, chainOK, p.Hash, p.Label, p.Variant, p.Mutation, got))
+			sigParts = append(sigParts, fmt.Sprintf("%d/%s/%s/%v/%s/%s/%s/%s/%v/%v", p.Bits, p.Chain, p.DevWindow, chainOK, p.Hash, p.Label, p.Variant, p.Mutation, p.Prior, got))
 			switch {
 			case got && !expect && !(undecided && chainOK):
 				why := "signature:" + p.Mutation + ":" + p.Label
